@@ -16,7 +16,8 @@ RULE = ("announced SASL lists: every ordered selection of up to 4 of {DIGEST-MD5
         "X-PLAIN-SUBMIT, XOAUTHBEARER, NTLM-LOGIN} "
         "incl. the empty list and a missing SASL capability (enumerated) x preferred mechanism {None, each implemented, two "
         "unimplemented names} x (for all pairs of lists of at most two mechanisms) an earlier connect of the same Client to a server announcing "
-        "another list x Hypothesis unicode credentials (NUL-free; commas, '=', quotes, spaces, non-ASCII; empty or "
+        "another list x credentials of every total length from 1 to 140 octets x Hypothesis unicode credentials (NUL-free; commas, '=', quotes, spaces, non-ASCII, "
+        "text that NFC/NFKC/case mapping/trimming would change; empty or "
         "non-empty authorisation id) x server verdict; oracle: mechanism-selection rule; payload decoded by reference SASL servers "
         "(RFC 4616 PLAIN, LOGIN, RFC 7628 OAUTHBEARER with RFC 5801 escaping, RFC 2831 DIGEST-MD5 with response= recomputed) equals "
         "the caller's values; connect is True iff the server accepted, Client.authenticated likewise; no AUTHENTICATE when no "
@@ -27,7 +28,9 @@ RULE = ("announced SASL lists: every ordered selection of up to 4 of {DIGEST-MD5
 MECHS = ["DIGEST-MD5", "PLAIN", "LOGIN", "OAUTHBEARER", "SCRAM-SHA-1", "GSSAPI", "X-PLAIN-SUBMIT", "XOAUTHBEARER", "NTLM-LOGIN"]
 IMPL = ["DIGEST-MD5", "PLAIN", "LOGIN", "OAUTHBEARER"]
 AUTHMECHS = [None, "DIGEST-MD5", "PLAIN", "LOGIN", "OAUTHBEARER", "SCRAM-SHA-1", "NTLM"]
-CRED_PARTS = ["a", "b", "Z", "0", ",", "=", '"', "\\", " ", "é", "€", "😀", "@", ".", ":", "=2C", "'", "user", "pass"]
+CRED_PARTS = ["a", "b", "Z", "0", ",", "=", '"', "\\", " ", "é", "€", "😀", "@", ".", ":", "=2C", "'", "user", "pass",
+              # text that Unicode normalisations, case mappings or trimming would change
+              "\ufb01", "e\u0301", "\u212b", "\u2168", "\u00a0", "\u00ad", "\uff46", "\u0130", "\u00df", "\t", "A", "x" * 23]
 
 
 def all_lists():
@@ -170,6 +173,20 @@ def worker(arg):
             col.case(key=None, nontrivial=len([m for m in (sasl or []) if m in IMPL]) >= 2, classes=["selection-exhaustive", "mech:%s" % exp])
             for b, d in fails:
                 col.fail(b, {"sasl": sasl, "authmech": authmech, "login": "user", "password": "secret", "authz": "", "verdict": True}, d, size=5 * len(sasl or []))
+    # message lengths: every total length of the credentials from 1 to 140 octets (base64 line
+    # folding at 57 / 76, literals above some size, padding classes), for each mechanism
+    for n in range(1, 141):
+        if n % nshards != idx:
+            continue
+        for mech in IMPL:
+            for split in (0, 1, 2):
+                login = ("u" * n) if split == 0 else "u" if split == 1 else "u" * (n // 2 + 1)
+                password = "p" if split == 0 else ("p" * n) if split == 1 else "p" * (n - n // 2)
+                fails, exp = check([mech], None, login, password, "", True)
+                col.case(key=None, nontrivial=True, classes=["length-sweep", "mech:%s" % exp])
+                for b, d in fails:
+                    col.fail(b + "|length-sweep", {"sasl": [mech], "authmech": None, "login": login, "password": password, "authz": "", "verdict": True}, d,
+                             size=n)
     # the same Client connecting a second time, to a server announcing something else:
     # every pair of short lists x authmech x outcome of the first connect
     sl = small_lists()
@@ -210,7 +227,7 @@ def main(tier, seed, t0):
     n = 16
     col = core.run_shards(worker, [(k, n, seed * 1000 + 1600 + k, 6 if quick else 60) for k in range(n)])
     need = ["mech:" + m for m in IMPL] + ["mech:None", "sasl:missing", "sasl:empty", "authz:nonempty", "verdict:True", "verdict:False",
-                                           "selection-exhaustive", "second-connect"]
+                                           "selection-exhaustive", "second-connect", "length-sweep"]
     missing = [c for c in need if not col.classes.get(c)]
     if missing:
         raise core.HarnessError("generator classes empty: %s" % missing)
